@@ -348,8 +348,7 @@ func quadsStr(axes [3][]float64, tris []*model3d.Triangle) (string, string) {
 }
 
 func runDc(c *hlib.Ctx) {
-	n := c.N
-	for i := 0; i < n; i++ {
+	batch(c, "dc", c.N, func() {
 		var t *csg
 		var mn, mx model3d.Coord3D
 		var delta float64
@@ -396,6 +395,7 @@ func runDc(c *hlib.Ctx) {
 		}
 		op := fmt.Sprintf("c02 %s %d %d %d %s %d nojitter=%v,gos=%d,buf=%d,margin=%v,mode=%d,delta=%v", kind,
 			len(xs), len(ys), len(zs), bitStr(bs), wi, noJitter, gos, buf, margin, mode, delta)
+		announce(op)
 		c.Emit(op, withTimeout(func() string {
 			d := &model3d.DualContouring{S: model3d.SolidSurfaceEstimator{Solid: s}, Delta: delta, NoJitter: noJitter,
 				MaxGos: gos, BufferSize: buf, Repair: repair, Clip: true, CubeMargin: margin, TriangleMode: mode}
@@ -458,7 +458,7 @@ func runDc(c *hlib.Ctx) {
 			}
 			return fmt.Sprintf("quads=%s incell=%s cross=%s interior=%s", q, incell, crossStr(crossings(axes, tris)), interior)
 		}))
-	}
+	})
 }
 
 var _ = hlib.Hex
